@@ -50,6 +50,31 @@ func (fx *fexec) externModel(key string, x *ssa.Call, f *ssa.Function, args []Va
 		vc.assert(eq(eq(xv, intLit(0)), eq(l, intLit(0))))
 		vc.assert(implies(gt(xv, intLit(0)), and(le(vc.pow2Term(sub(l, intLit(1))), xv), lt(xv, vc.pow2Term(l)))))
 		return Val{Ty: rt, T: vc.fromInt(l, rt)}, true
+	case "encoding/binary.Uvarint", "encoding/binary.Varint":
+		// (value, n): n == 0 buffer too small, n < 0 overflow with -n bytes read,
+		// otherwise n bytes read; |n| never exceeds len(buf) nor 11. The value is an
+		// uninterpreted function of the buffer contents.
+		vc.note("extern " + key + ": 0 < n <= min(len, 10) on success, n == 0 too small, -11 <= n < 0 overflow with |n| <= len (assumed from its documentation); value uninterpreted")
+		tup := rt.(*types.Tuple)
+		vt := tup.At(0).Type()
+		heapOf := func(comp, srt string) Term { return vc.heapGet(st, comp, srt) }
+		val := vc.define(x.Name()+"_v", vc.pureApp(key+".value", []Val{args[0]}, vt, heapOf))
+		vc.assert(vc.typeInv(val, vt, Term{}))
+		n := vc.define(x.Name()+"_n", vc.pureApp(key+".n", []Val{args[0]}, types.Typ[types.Int], heapOf))
+		ln := sLen(args[0].T)
+		vc.assert(and(le(intLit(-11), n), le(n, intLit(10)), le(n, ln), le(sub(intLit(0), n), ln)))
+		return Val{Ty: rt, Tup: []Val{{Ty: vt, T: val}, {Ty: types.Typ[types.Int], T: n}}}, true
+	case "encoding/binary.littleEndian.Uint32", "encoding/binary.littleEndian.Uint64", "encoding/binary.littleEndian.Uint16",
+		"encoding/binary.bigEndian.Uint32", "encoding/binary.bigEndian.Uint64", "encoding/binary.bigEndian.Uint16":
+		// panics (index out of range) unless the buffer holds the full width; value uninterpreted
+		w := map[string]int64{"16": 2, "32": 4, "64": 8}[key[len(key)-2:]]
+		buf := args[len(args)-1]
+		fx.panicPoint(st, lt(sLen(buf.T), intLit(w)), "bounds", key+" on a short buffer", pos)
+		vc.note("extern " + key + ": reads the first bytes of the buffer (value uninterpreted), panics on a short buffer")
+		heapOf := func(comp, srt string) Term { return vc.heapGet(st, comp, srt) }
+		v := vc.define(x.Name(), vc.pureApp(key, []Val{buf}, rt, heapOf))
+		vc.assert(vc.typeInv(v, rt, Term{}))
+		return Val{Ty: rt, T: v}, true
 	case "slices.Delete":
 		return fx.slicesDelete(x, args, st, pos), true
 	case repoModule + "/tm2/pkg/amino.Unmarshal", repoModule + "/tm2/pkg/amino.UnmarshalSized",
